@@ -83,7 +83,14 @@ def r03a(ctx, only=None):
         if not rb and not cb and not delegate:
             # the summing may sit in a same-class helper that bounds() calls (`total = self._sub_edit_bounds()`)
             from ..astx import class_helpers
-            for h_ in class_helpers(m, fb.cls, fb, depth=1)[1:]:
+            hs_ = class_helpers(m, fb.cls, fb, depth=1)[1:]
+            # ... or in a helper inherited from a base class (`self.sub_edit_bounds() if self.is_complete() else self._estimate()`)
+            for c_ in walk_no_nested(fb.node):
+                if isinstance(c_, ast.Call) and self_attr(c_.func):
+                    h_ = m.method(q, self_attr(c_.func))
+                    if h_ is not None and h_.qual not in {x.qual for x in hs_} and h_.qual != fb.qual:
+                        hs_.append(h_)
+            for h_ in hs_:
                 if h_.node.name not in ("bounds", "edits", "tighten_bounds", "is_complete", "__init__") and not decorator_names(h_.node):
                     sb = sb + e1.extract(h_.node, "bounds")
             rb, cb, ub, delegate = roots_and_consts(m, q, sb, zero)
@@ -128,7 +135,7 @@ def r03a(ctx, only=None):
             elif e is None:
                 problems.append((b.node, f"bounds() adds {b.name} but edits() emits no {ctor}", f"bounds-only {ctor}"))
             elif b.name != e.name or b.selection or e.selection:
-                problems.append((b.node, f"bounds() adds {b.name}{' selected by ' + b.selection if b.selection else ''} "
+                problems.append((getattr(b, "scope", None) or b.node, f"bounds() adds {b.name}{' selected by ' + b.selection if b.selection else ''} "
                                          f"but edits() emits {e.name}{' selected by ' + e.selection if e.selection else ''}: "
                                          f"different populations, so the compound bound need not equal the sum of the "
                                          f"listed sub-edits", f"{ctor} population"))
@@ -138,7 +145,8 @@ def r03a(ctx, only=None):
             # two formulas: one path sums self.edits(), another adds up sources of its own that are not that sum (the problems
             # reported below): the interval jumps when the condition flips - below its earlier lower bound if the second
             # formula over-estimates, so earlier intervals do not contain the final cost
-            ctx.violation("R03a", fb.file, f"{short}.bounds", mixed_.node, f"{short}: two formulas",
+            at_ = mixed_.node if any(x is mixed_.node for x in ast.walk(fb.node)) else fb.node   # the delegate may sit in an inherited helper
+            ctx.violation("R03a", fb.file, f"{short}.bounds", at_, f"{short}: two formulas",
                           f"{short}.bounds() sums self.edits() on one path ({' and '.join(mixed_.guard) or 'unconditionally'}) and adds up "
                           f"{sorted(rb) + [c.name for c in cb]} on another, which is not the same sum ({problems[0][2]}): the interval jumps when "
                           f"the condition flips, so the intervals reported before need not contain the final cost")
